@@ -182,6 +182,61 @@ async fn cookie_case(server: SocketAddr, spec_secret: &str, expiry: u64, age: i6
     Outcome { class, signature, detail, inconclusive: None }
 }
 
+
+/// A cookie the server issued itself (full login through the configured listener) presented again
+/// after `wait`: it must be accepted within the configured expiry and refused beyond it.
+async fn issued_cookie_case(server: SocketAddr, expiry: u64, wait: Duration, seed: u64) -> Outcome {
+    let class = format!("issued-cookie/expiry-{expiry}/presented-after-{}s", wait.as_secs());
+    let end = match TcpEnd::connect(server, None).await {
+        Ok(e) => e,
+        Err(e) => return Outcome { class, signature: None, detail: json!({}), inconclusive: Some(format!("connect failed: {e}")) },
+    };
+    let claimed = Ident { name: format!("Fresh{seed}"), uuid: seed as u128 };
+    let plan = scripts::plan(scripts::login_script(2, "limits.example.org", 25565, &claimed, "en_us"), false, [4u8; 16], Duration::from_secs(6));
+    let log = Client::new(&end, plan).run().await;
+    end.kill();
+    let issued = log.all("StoreCookie").into_iter().find_map(|r| match &r.pkt {
+        Ok(Pkt::StoreCookie { key, payload }) if key == AUTH_KEY => Some(payload.clone()),
+        _ => None,
+    });
+    let Some(cookie) = issued else {
+        return Outcome { class, signature: Some(("issued-cookie-history/no-cookie-issued".into(), "a full login against the configured listener did not issue an authentication cookie".into())), detail: json!({"clientbound": log.names()}), inconclusive: None };
+    };
+    tokio::time::sleep(wait).await;
+    let end2 = match TcpEnd::connect(server, None).await {
+        Ok(e) => e,
+        Err(e) => return Outcome { class, signature: None, detail: json!({}), inconclusive: Some(format!("connect failed: {e}")) },
+    };
+    let mut plan2 = scripts::plan(
+        vec![
+            scripts::send("Handshake", scripts::handshake(3, "limits.example.org", 25565, 770)),
+            scripts::send("LoginStart", Pkt::LoginStart { name: "Claimed".into(), uuid: 5 }),
+            Act::AwaitPkt { name: "EncryptionRequest", nth: 1 },
+            Act::Close,
+            Act::AwaitClose,
+        ],
+        false,
+        [7u8; 16],
+        Duration::from_secs(6),
+    );
+    plan2.cookies = vec![(AUTH_KEY.to_string(), Some(cookie))];
+    let log2 = Client::new(&end2, plan2).run().await;
+    end2.kill();
+    let flag = log2.enc_request.as_ref().map(|e| e.2);
+    let expect_accept = wait.as_secs() < expiry;
+    let detail = json!({"expiry": expiry, "waited_s": wait.as_secs_f64(), "should_authenticate": flag});
+    let signature = match flag {
+        None => Some(("cookie-connection-ended-early/issued".to_string(), "the connection ended before the Encryption Request".to_string())),
+        Some(f) if f == expect_accept => Some(if expect_accept {
+            ("issued-cookie-rejected-within-expiry".to_string(), format!("a cookie issued {} s ago was rejected (auth_cookie_expiry = {expiry})", wait.as_secs()))
+        } else {
+            ("expired-cookie-accepted/issued-by-the-server".to_string(), format!("a cookie the server issued {} s ago was accepted although auth_cookie_expiry is {expiry}", wait.as_secs()))
+        }),
+        Some(_) => None,
+    };
+    Outcome { class, signature, detail, inconclusive: None }
+}
+
 #[derive(Clone, Debug)]
 enum Behaviour {
     Silent,
@@ -270,6 +325,8 @@ pub async fn run(cli: &Cli, report: &mut Report) {
             Spec { max_packet_length: 2000, expiry: 5, timeout: 3, secret: "s".into(), from_file: false },
             // long deadline: room for clients that stall before presenting their cookie
             Spec { max_packet_length: 1000, expiry: 5, timeout: 8, secret: "operator secret F".into(), from_file: false },
+            // server-issued cookies presented within / beyond the configured expiry
+            Spec { max_packet_length: 1000, expiry: 4, timeout: 9, secret: "operator secret G".into(), from_file: false },
         ];
         if thorough {
             v.push(Spec { max_packet_length: 1000, expiry: 60, timeout: 18, secret: "operator secret C".into(), from_file: false });
@@ -324,6 +381,12 @@ pub async fn run(cli: &Cli, report: &mut Report) {
                 let secret = spec.secret.clone();
                 let expiry = spec.expiry;
                 futures.push(Box::pin(async move { cookie_case(addr, &secret, expiry, age, true, seed, Duration::from_millis(stall_ms)).await }));
+            }
+        }
+        if spec.expiry == 4 {
+            for (wait_s, k) in [(1u64, 1u64), (6, 2)] {
+                let expiry = spec.expiry;
+                futures.push(Box::pin(async move { issued_cookie_case(addr, expiry, Duration::from_secs(wait_s), 500 + k).await }));
             }
         }
         let mut behaviours = vec![Behaviour::Silent, Behaviour::Drip, Behaviour::StatusNoPing];
